@@ -121,6 +121,21 @@ func execRoundTrip(c rtCase, _ core.Source) (res core.Result) {
 		res.Violation = core.Violate("C10/value-changed", "round trip changed the value:\n  before %v\n  after  %v\n  text:\n%s", a0, a1, text)
 		return
 	}
+	// the same through a parser and a notation instance that have been used before (also for texts they rejected)
+	mask := int(core.Mix(uint64(len(text))*131+uint64(len(c.Classes))) % 128)
+	var viaParser, viaNotation any
+	if p, payload := lib.Call(func() {
+		viaParser = parserWithPast(mask)(text)
+		n := notationWithPast(mask)
+		viaNotation = n.ParseSource(n.FormatValue(obj))
+	}); p {
+		res.Violation = core.Violate("C10/instance-with-a-past/panicked", "a parser or notation instance that had been used before (past %07b) failed on the text FormatValue produced for %v:\n%s\n%s", mask, a0, text, lib.Short(payload))
+		return
+	}
+	if !model.Identical(a0, model.Abstract(viaParser)) || !model.Identical(a0, model.Abstract(viaNotation)) {
+		res.Violation = core.Violate("C10/instance-with-a-past/value-changed", "a parser or notation instance that had been used before (past %07b) changed the value %v:\n  parser   %v\n  notation %v", mask, a0, model.Abstract(viaParser), model.Abstract(viaNotation))
+		return
+	}
 	var text2 string
 	if p, payload := lib.Call(func() { text2 = mod.FormatValue(parsed) }); p {
 		res.Violation = core.Violate("C10/reformat-panicked", "FormatValue of the parsed value panicked: %s", lib.Short(payload))
